@@ -60,7 +60,10 @@ def rule_for(m):
     if m == "DeleteOperation":
         return {"selector": FQN[m], "delete": "/v1/{name=projects/*/x/*}"}
     if m == "GetIamPolicy":
-        return {"selector": FQN[m], "get": "/v1/{resource=projects/*/x/*}:getIamPolicy"}
+        # two bindings on ONE path (different verb and body) and a third on another path
+        return {"selector": FQN[m], "get": "/v1/{resource=projects/*/x/*}:getIamPolicy",
+                "additional_bindings": [{"post": "/v1/{resource=projects/*/x/*}:getIamPolicy", "body": "*"},
+                                        {"get": "/v1/{resource=folders/*/x/*}:getIamPolicy"}]}
     return {"selector": FQN[m], "post": "/v1/{%s=projects/*/x/*}:%s" % ("resource" if m in IAM else "name", m), "body": "*"}
 
 
@@ -142,8 +145,11 @@ def selection(apis_mask: int, ops: int, iam: int, loc: int, unrelated: bool, ove
             return False
         for m in exp:
             r = rule_for(m)
-            verb = [k for k in ("get", "post", "delete") if k in r][0]
-            rows = opts_tab[m]
-            if len(rows) != 1 or (rows[0].method, rows[0].uri, rows[0].body) != (verb, r[verb], r.get("body") or None):
+            want = []
+            for b in [r] + list(r.get("additional_bindings", [])):
+                verb = [k for k in ("get", "post", "delete") if k in b][0]
+                want.append((verb, b[verb], b.get("body") or None))
+            rows = [(x.method, x.uri, x.body) for x in opts_tab[m]]
+            if rows != want:
                 return False
         return True
